@@ -11,6 +11,9 @@ CONSTANTS MaxN = {maxn}
           ListLen = {listlen}
           Rich = {rich}
           Sim = {sim}
+          HubSizes = {hubsizes}
+          HubDels = {hubdels}
+          HubAllOrders = {huball}
 {view}
 CONSTRAINT Bound
 {emit}
@@ -32,9 +35,10 @@ CHECK_DEADLOCK FALSE
 """
 
 
-def gen(mode, maxn, maxe, maxh, view=True, emit="Emit", inv="", props="", legacy="{}", usekf="{}", listlen=1, rich=False, sim=False):
+def gen(mode, maxn, maxe, maxh, view=True, emit="Emit", inv="", props="", legacy="{}", usekf="{}", listlen=1, rich=False, sim=False,
+        hubsizes="{3}", hubdels=1, huball=True):
     return GEN.format(mode=mode, maxn=maxn, maxe=maxe, maxh=maxh, legacy=legacy, usekf=usekf, listlen=listlen,
-                      rich="TRUE" if rich else "FALSE", sim="TRUE" if sim else "FALSE", view="VIEW View" if view else "",
+                      rich="TRUE" if rich else "FALSE", sim="TRUE" if sim else "FALSE", hubsizes=hubsizes, hubdels=hubdels, huball="TRUE" if huball else "FALSE", view="VIEW View" if view else "",
                       emit=("ACTION_CONSTRAINT " + emit) if emit else "", inv=inv,
                       props=("PROPERTIES " + props) if props else "")
 
